@@ -194,7 +194,7 @@ def rewrite_source(fn_text, rewrites, extra=None):
                 v = '_fi%d' % n; n += 1
                 edits.append((toks[i].pos, toks[i + 6].end, 'let mut %s: usize = 0; while %s < %s { %s += 1;' % (v, v, bound, v)))
         if n: applied.append('%d `for _ in 0..N` loop(s) written as while loops' % n)
-        else: raise ExtractError('rewrite for2while: no `for _ in 0..N` loop found')
+        else: applied.append('for2while: no `for _ in 0..N` loop in the current text (nothing rewritten)')
     # R6: `E.into_iter().for_each(|x| { BODY });` -> `for x in E { BODY }` (Verus rejects closures that capture `&mut`).
     #     Declared per function as `rewrites=foreach2for`. This is the definition of `Iterator::for_each` for a closure whose
     #     body neither returns early nor uses `?`; refused unless the statement has exactly this shape, the closure parameter is
@@ -229,7 +229,7 @@ def rewrite_source(fn_text, rewrites, extra=None):
                 edits.append((toks[b1].pos, toks[b1 + 2].end, '}'))
                 n += 1
         if n: applied.append('%d `E.into_iter().for_each(|x| { .. });` statement(s) written as `for x in E { .. }`' % n)
-        else: raise ExtractError('rewrite foreach2for: no `.into_iter().for_each(|x| { .. });` statement found')
+        else: applied.append('foreach2for: no `.into_iter().for_each(|x| { .. });` statement in the current text (nothing rewritten)')
     # R7: the initialiser of ONE local is replaced by a call of an assumed (external_body) function: `let v = EXPR;` ->
     #     `let v = CALL;`. Declared as `rewrites=absexpr:v` with `abs=CALL` and `abs_sha=<sha1[:12] of EXPR's tokens>`. EXPR is
     #     NOT verified: it is named in the evidence as dropped text, and the assumed contract of CALL is tied to the exact
@@ -284,7 +284,7 @@ def rewrite_source(fn_text, rewrites, extra=None):
                     i = k + 1; continue
             i += 1
         if n: applied.append('%d `for PAT in X.by_ref() { .. }` loop(s) written as `loop { match X.next() { Some(PAT) => { .. } None => break, } }`' % n)
-        else: raise ExtractError('rewrite forbyref2loop: no `for PAT in X.by_ref()` loop found')
+        else: applied.append('forbyref2loop: no `for PAT in X.by_ref()` loop in the current text (nothing rewritten)')
     out = fn_text
     for s, e, r in sorted(edits, reverse=True):
         out = out[:s] + r + out[e:]
